@@ -226,6 +226,7 @@ def plan(tier, seed):
         shards.append({'kind': 'long', 'k': 12 if tier == 'quick' else 60, 'part': p, 'parts': 4})
     for p in range(2 if tier == 'quick' else 8):
         shards.append({'kind': 'precedent', 'n': 6 if tier == 'quick' else 60})
+    shards.append({'kind': 'arrayform', 'n': 12 if tier == 'quick' else 60})
     return shards
 
 
@@ -386,6 +387,47 @@ def run_must_reject(ctx, texts, tag):
                 report(r, ID, None, {'text': text, 'how': 'empty-argument'}, out.brief(), 'E2PyclParserException', monitor='reject-with-parser-exception')
 
 
+def run_arrayform(shard, ctx):
+    """the same formula text in an ordinary formula cell and in an ARRAY-FORMULA cell (openpyxl hands that one over as an object carrying
+    the text): translated or refused alike, and to the same value.  The texts include junk that display conventions invite to strip
+    (braces, a doubled equals sign): what is not part of the grammar is refused in both kinds of cell."""
+    from openpyxl.worksheet.formula import ArrayFormula
+    r, rng = ctx.r, ctx.rng
+    tmon = TranslateMonitor.install(r)
+    import random
+    base = base_corpus(random.Random(ctx.seed + 5), 60)[:shard['n']] + ['=SUM(A3:A5)', '=A1+B1', '=IF(A1>1,"y","n")', '=LEFT("abc",2)&"x"']
+    texts = []
+    for f in base:
+        body = f[1:]
+        texts += [f, f + '}', f + '}}', '=' + f, '={' + body, '={' + body + '}', '{' + f + '}', f + ' }', '=}' + body, f + '{', '= {' + body + '} ']
+    per = 30
+    for off in range(0, len(texts), per):
+        batch = texts[off:off + per]
+        cells = dict(BASEC)
+        pairs = []
+        for i, t in enumerate(batch):
+            a, b = f'J{i + 8}', f'L{i + 8}'
+            if not t.startswith('='):
+                continue          # a text that does not start with = is a constant in an ordinary cell: no formula to compare
+            cells[a] = t
+            cells[b] = ArrayFormula(b, t)
+            pairs.append((a, b, t))
+        spec = wbspec.spec(wbspec.sheet('S1', cells))
+        book = pipeline.Book(spec, ctx.workdir, name=f'af{off}', per_cell=True, cells_of_interest=[])
+        for a, b, t in pairs:
+            oa, _ = observe(book, 0, a, tmon)
+            ob, _ = observe(book, 0, b, tmon)
+            r.ev(2)
+            r.count('array_formula_twins')
+            r.nt(('arrayform', t))
+            same = (oa.ok == ob.ok) and ((oa.ok and type(oa.value) is type(ob.value) and (oa.value == ob.value or oa.value != oa.value))
+                                         or (not oa.ok and oa.kind == ob.kind and oa.phase == ob.phase))
+            if not same:
+                report(r, ID, None, {'text': t, 'how': 'array-formula twin'}, {'ordinary_cell': oa.brief(), 'array_formula_cell': ob.brief()},
+                       'the same outcome in both kinds of cell', monitor='array-formula-text')
+    r.sample({'array_formula_twins': texts[:12]})
+
+
 def run_mutate(shard, ctx):
     r, rng = ctx.r, ctx.rng
     import random
@@ -486,7 +528,7 @@ def run_shard(shard, ctx):
         if 'base' in c:
             items.insert(0, (c['base'], 'base', 0))
         return run_texts(ctx, items, 'rep')
-    {'arity': run_arity, 'mutate': run_mutate}[shard['kind']](shard, ctx)
+    {'arity': run_arity, 'mutate': run_mutate, 'arrayform': run_arrayform}[shard['kind']](shard, ctx)
 
 
 def finish(r, tier, seed):
